@@ -183,7 +183,7 @@ CellBody(st, n, t, v) ==
            LET nd1 == IF t = "NA" THEN [nd EXCEPT !.v = SomeV(v)] ELSE [nd EXCEPT !.v2 = SomeV(v)]
                st1 == set(nd1) IN
            IF nd1.f /\ IsSome(nd1.v) /\ IsSome(nd1.v2)
-           THEN Push(st1, <<CallN(d, BinF(nd.a, Unwrap(nd1.v), Unwrap(nd1.v2)))>>)
+           THEN Push(st1, <<CallN(d, P(Unwrap(nd1.v), Unwrap(nd1.v2)))>>)
            ELSE st1
          ELSE IF t = "E" THEN term ELSE twoC
     [] k = "bufcell" ->          \* MutArc<Option<BufferObserver>>: q = data
